@@ -16,13 +16,16 @@ def val5(v):
     if v is None:
         return ['N', '', [], [-1, -1], [-1, -1]]
     if hasattr(v, 'type') and hasattr(v, 'start_pos'):
-        s, e = v.start_pos, v.end_pos
+        s = v.start_pos if isinstance(v.start_pos, int) else -1
+        e = v.end_pos if isinstance(v.end_pos, int) else -1
         return ['T', str(v.type), [], [s, e], [s, e]]
     if hasattr(v, 'data'):
         m = v.meta
-        return ['R', str(v.data), [val5(c) for c in v.children],
-                [getattr(m, 'start_pos', -1), getattr(m, 'end_pos', -1)],
-                [getattr(m, 'container_start_pos', -1), getattr(m, 'container_end_pos', -1)]]
+
+        def pos(name):
+            x = getattr(m, name, -1)
+            return x if isinstance(x, int) else -1
+        return ['R', str(v.data), [val5(c) for c in v.children], [pos('start_pos'), pos('end_pos')], [pos('container_start_pos'), pos('container_end_pos')]]
     return ['O', repr(v)[:30], [], [-1, -1], [-1, -1]]
 
 
@@ -57,16 +60,21 @@ def instrument(parser, log, log_reset):
             res = f(children)
             if hasattr(res, 'data') or hasattr(res, 'type'):       # a ?rule may return a bare token: it is numbered too
                 same = [n for c, n in zip(children, kid) if c is res and n]
+                # a ?rule returns its only child - which may be a grandchild spliced in from an inlined (_rule) child
+                inner = [g for c in children if hasattr(c, 'data') and str(c.data).startswith('_') for g in c.children if g is res]
+                pt = bool(same or inner or any(c is res for c in children))
                 if same:
                     rid = same[0]
+                elif inner and id(res) in num:
+                    rid = num[id(res)]
                 else:
                     counter[0] += 1
                     rid = counter[0]
                 num[id(res)] = rid
                 alive.append(res)
             else:
-                rid = 0
-            log.append({'r': idx[rule], 'kids': kids, 'res': val5(res), 'rid': rid, 'kid': kid})
+                rid, pt = 0, False
+            log.append({'r': idx[rule], 'kids': kids, 'res': val5(res), 'rid': rid, 'kid': kid, 'pt': pt})
             return res
         return g
     for rule in list(cbs):
@@ -265,6 +273,10 @@ def phase(pid, tier, rng, ev, rep, tmp, n_quick=2500, n_thorough=20000):
                 sps.append({'G': sp['G'], 'ka': sp['ka'], 'ph': sp['ph'], 'inputs': [tuple(w) for w in sp['inputs']], 'family': 'F_ebnf(builder drift)'})
         c03.judge(pid, [c for c in C.pmap(c03.observe_case, sps) if not c['skip']], ev, rep, tmp, 'builder-drift')
     selftest(cases, ev, tmp)
+    # lark's own test suite under the same recorder: its grammars (templates, priorities, the python grammar, ...) are not of
+    # my families - every reduction they make goes through the same judgement
+    from . import suite
+    suite.run(pid, ev, rep, tmp)
     if sum(len(c['reds']) for c in cases) < (6000 if C.scale(100) == 100 else 10):
         raise C.MachineryFailure('vacuity (builder): %s' % ev.cov['counts'])
 
